@@ -64,6 +64,10 @@ EDGE_TEXTS = [
     "(-x)^2 * x^3", "(-y)^4 + 3y^4", "(-x)^3 * x", "2x^2 + (-x)^2", "(-x)^2 * x^3 = 32", "(-2x)^2 + x^2", "(-x)^0.5 * x", "-x^2 + (-x)^2",
     # constant folds whose product / sum is the neutral element, at the ROOT of the tree
     "0.5x * 2", "4 * (0.25 * y)", "2 * 0.5x", "1x * 1", "-1 * (-1 * z)", "0.5 * (2 * (x + 1))", "x + 0 + 0", "(3 - 3) + y", "2x^2 * 0.5",
+    # sums of bare constants with a negative one (factored only with constants=True)
+    "y = -12 + 8", "y = -4 + 6", "y = 9 + -6", "-12 + 8", "9 + -6", "-4 + -6", "-9 + -6 + x", "-16 + 4", "-25 + 10 = z", "8 + -12",
+    # more texts outside the documented grammar (a postfix factorial on a non-literal): skipped unless a parser accepts them
+    "(-x)!", "(-(x + y))!", "(n - 1)!", "x!", "(2x)!^2", "-(x!)", "(-sgn(x))!", "x! + (x + 1)!",
     # texts the documented grammar does NOT derive (an equation inside a group): a parser that accepts
     # them hands the rules trees they were never written for; on the pinned parser they are simply skipped
     "-(3 = 2)", "2(x = 3)", "7 - (1 + 1 = 3)", "-(x = 3)", "sgn(2 = 3)", "(4 = 5)^2", "-(2 + 2 = 5) + x",
